@@ -25,7 +25,11 @@ META = dict(
 )
 
 BASE = 1700000000
-ADDRS = {1: b"10.0.0.1", 2: b"10.0.0.2"}
+# Client addresses.  Address 3 is "no address" (a channel without a peer address): None, "" and b"" are three spellings of
+# it, as bytes/str are two spellings of a concrete address; the spelling is a concretisation detail, the identity is the index.
+ADDR_SPELLINGS = {1: [b"10.0.0.1", "10.0.0.1"], 2: [b"10.0.0.2", "10.0.0.2"], 3: [None, "", b""]}
+ADDRS = {1: b"10.0.0.1", 2: b"10.0.0.2", 3: b""}           # as bytes inside an opaque's key part
+ALL_ADDRS = [(a, sp) for a in (1, 2, 3) for sp in range(len(ADDR_SPELLINGS[a]))]
 PW = {"p1": b"secret-one", "p2": b"secret-two"}
 REALM = b"verif realm"
 REST_FIELDS = ["username", "realm", "uri", "response", "nc", "cnonce", "qop", "algorithm", "extra"]
@@ -159,7 +163,7 @@ def build_response(r, chals, now, algo, rng):
 
 
 def run_history(cfg, ops, rng):
-    """ops: ["issue", a] | ["tick", d] | ["respond", r].  Returns the trace."""
+    """ops: ["issue", a, spelling] | ["tick", d] | ["respond", r, spelling].  Returns the trace."""
     import types
 
     from twisted.cred import credentials, error
@@ -175,7 +179,7 @@ def run_history(cfg, ops, rng):
     try:
         for op in ops:
             if op[0] == "issue":
-                c = fac.getChallenge(ADDRS[op[1]])
+                c = fac.getChallenge(ADDR_SPELLINGS[op[1]][op[2] if len(op) > 2 else 0])
                 chals.append(c)
                 ev.append(dict(e="issue", a=op[1], n=len(chals)))
             elif op[0] == "tick":
@@ -186,7 +190,7 @@ def run_history(cfg, ops, rng):
                 hdr = build_response(r, chals, clock[0], cfg["algo"], rng)
                 dec, chk = "", ["-", "-"]
                 try:
-                    creds = fac.decode(hdr, b"GET", ADDRS[r["from"]])
+                    creds = fac.decode(hdr, b"GET", ADDR_SPELLINGS[r["from"]][op[2] if len(op) > 2 else 0])
                     dec = "creds" if creds is not None else "None"
                 except error.LoginFailed:
                     dec = "LoginFailed"
@@ -225,18 +229,32 @@ def single_mutations():
 
 
 def exhaustive_histories(L):
-    """two challenges (addresses 1 and 2), then one response per history: single mutation x address x age x password x mode"""
+    """(1) the address matrix: a genuine response to a challenge issued to every address spelling, sent from every address
+    spelling (bytes / str for concrete addresses; None / "" / b"" for "no address"), at ages 0, L, L+1;
+    (2) every single-class mutation x issued-to in {concrete, none} x from in {same concrete, other concrete, none} x age."""
     for algo in ("md5", "sha"):
         cfg = dict(L=L, algo=algo)
-        for mut in single_mutations():
-            for frm in (1, 2):
-                for age in (0, L - 1, L, L + 1, 3 * L):
+        for ia, isp in ALL_ADDRS:
+            for fa, fsp in ALL_ADDRS:
+                for age in (0, L, L + 1):
                     for pw in ("p1", "p2"):
                         for mode in ("auth", "legacy"):
-                            if mode == "legacy" and any(k in mut for k in ("nc", "cnonce", "qop")):
+                            r = mk(1, fa, pw=pw, o=2, mode=mode)
+                            yield cfg, [["issue", ia, isp], ["issue", 2 if ia != 2 else 1, 0], ["tick", age], ["respond", r, fsp]]
+        k = 0
+        for mut in single_mutations():
+            if not mut:
+                continue
+            for ia in (1, 3):
+                for fa in (1, 2, 3):
+                    for age in (0, L, L + 1):
+                        for mode in ("auth", "legacy"):
+                            if mode == "legacy" and any(x in mut for x in ("nc", "cnonce", "qop")):
                                 continue
-                            r = mk(1, frm, pw=pw, o=2, mode=mode, **mut)
-                            yield cfg, [["issue", 1], ["issue", 2], ["tick", age], ["respond", r]]
+                            k += 1
+                            isp, fsp = k % len(ADDR_SPELLINGS[ia]), (k // 3) % len(ADDR_SPELLINGS[fa])
+                            r = mk(1, fa, pw="p1" if k % 4 else "p2", o=2, mode=mode, **mut)
+                            yield cfg, [["issue", ia, isp], ["issue", 2, k % 2], ["tick", age], ["respond", r, fsp]]
 
 
 def random_history(rng):
@@ -247,7 +265,7 @@ def random_history(rng):
     for _ in range(rng.randint(3, 14)):
         x = rng.random()
         if n == 0 or x < 0.2:
-            ops.append(["issue", rng.choice([1, 2])])
+            ops.append(["issue"] + list(rng.choice(ALL_ADDRS)))
             n += 1
         elif x < 0.4:
             ops.append(["tick", rng.choice([0, 1, L - 1, L, L + 1, 1, 2])])
@@ -267,8 +285,9 @@ def random_history(rng):
                     if mode == "legacy" and f in ("nc", "cnonce", "qop"):
                         continue
                     muts[f] = rng.choice(REST_CLASSES[f])
-            ops.append(["respond", mk(rng.randint(1, n), rng.choice([1, 2]), pw=rng.choice(["p1", "p2"]), nonce=nonce, opaque=opaque,
-                                      o=rng.randint(1, n), mode=mode, **muts)])
+            fa, fsp = rng.choice(ALL_ADDRS)
+            ops.append(["respond", mk(rng.randint(1, n), fa, pw=rng.choice(["p1", "p2"]), nonce=nonce, opaque=opaque,
+                                      o=rng.randint(1, n), mode=mode, **muts), fsp])
     return cfg, ops
 
 
@@ -340,7 +359,7 @@ def _report(ctx, traces, rej):
         t = traces[x.idx]
         e = t["ev"][x.reached] if x.reached < len(t["ev"]) else None
         what = "DigestCredentialFactory(%s) history %s: event %d not explained by Digest.tla: %s" % (
-            t["cfg"]["algo"], [o if o[0] != "respond" else ["respond", classes_of(o[1]) or "genuine"] for o in t["ops"]][:8], x.reached,
+            t["cfg"]["algo"], [o if o[0] != "respond" else ["respond", classes_of(o[1]) or "genuine", "from", repr(ADDR_SPELLINGS[o[1]["from"]][o[2] if len(o) > 2 else 0])] for o in t["ops"]][:8], x.reached,
             None if e is None else {k: v for k, v in e.items() if k != "r"})
         ctx.violation(fingerprint(t, x.reached), what, dict(cfg=t["cfg"], ops=t["ops"], rejected_at=x.reached))
 
